@@ -9,9 +9,17 @@ use std::path::{Path, PathBuf};
 use std::process::{Command, Stdio};
 use std::time::{Duration, Instant};
 
-/// Watchdog for one child process. Far above anything a healthy run needs even on a loaded machine;
-/// reaching it means the process hangs (reported as such, never silently).
-pub const WATCHDOG: Duration = Duration::from_secs(600);
+/// Watchdog for one child process: far above anything a healthy run needs even on a loaded machine (a run
+/// takes milliseconds). Policy: when it expires the same command is run once more with twice the limit, and
+/// only a second expiry is reported as a hang (`timed_out`); every retry is counted (`watchdog_retries`).
+pub const WATCHDOG: Duration = Duration::from_secs(120);
+
+static RETRIES: std::sync::atomic::AtomicU64 = std::sync::atomic::AtomicU64::new(0);
+
+/// Number of watchdog expiries that were followed by a retry in this process.
+pub fn watchdog_retries() -> u64 {
+    RETRIES.load(std::sync::atomic::Ordering::SeqCst)
+}
 
 #[derive(Clone, Debug, Default)]
 pub struct RunOut {
@@ -39,7 +47,7 @@ impl RunOut {
     }
 }
 
-fn wait_child(mut child: std::process::Child, started: Instant) -> (Option<i32>, Option<i32>, bool) {
+fn wait_child(mut child: std::process::Child, started: Instant, limit: Duration) -> (Option<i32>, Option<i32>, bool) {
     // Polling for process exit (not a synchronisation between test actors): the poll interval only
     // bounds how late we notice the exit.
     let mut nap = Duration::from_micros(200);
@@ -49,7 +57,7 @@ fn wait_child(mut child: std::process::Child, started: Instant) -> (Option<i32>,
             Ok(None) => {}
             Err(_) => return (None, None, false),
         }
-        if started.elapsed() > WATCHDOG {
+        if started.elapsed() > limit {
             let _ = child.kill();
             let st = child.wait().ok();
             return (st.and_then(|s| s.code()), st.and_then(|s| s.signal()), true);
@@ -63,6 +71,15 @@ fn wait_child(mut child: std::process::Child, started: Instant) -> (Option<i32>,
 
 /// Run to completion, stdin = /dev/null (or the given bytes), stdout and stderr captured concurrently.
 pub fn run_cmd(cmd: &mut Command, stdin: Option<&[u8]>) -> RunOut {
+    let first = run_cmd_limit(cmd, stdin, WATCHDOG);
+    if !first.timed_out {
+        return first;
+    }
+    RETRIES.fetch_add(1, std::sync::atomic::Ordering::SeqCst);
+    run_cmd_limit(cmd, stdin, WATCHDOG * 2)
+}
+
+fn run_cmd_limit(cmd: &mut Command, stdin: Option<&[u8]>, limit: Duration) -> RunOut {
     let started = Instant::now();
     cmd.stdout(Stdio::piped()).stderr(Stdio::piped());
     cmd.stdin(if stdin.is_some() { Stdio::piped() } else { Stdio::null() });
@@ -93,7 +110,7 @@ pub fn run_cmd(cmd: &mut Command, stdin: Option<&[u8]>) -> RunOut {
                 let _ = si.write_all(&input);
             }
         });
-        let w = wait_child(child, started);
+        let w = wait_child(child, started, limit);
         let _ = t3.join();
         (t1.join().unwrap(), t2.join().unwrap(), w)
     });
@@ -110,6 +127,15 @@ const F_GETPIPE_SZ: i32 = 1032;
 /// `k` bytes (k = 0: closed before the process starts, so every write fails with EPIPE).
 /// Returns the run (stdout = the bytes the consumer read) and the pipe capacity in bytes.
 pub fn run_cmd_close_after(cmd: &mut Command, k: usize) -> (RunOut, usize) {
+    let first = run_cmd_close_after_limit(cmd, k, WATCHDOG);
+    if !first.0.timed_out {
+        return first;
+    }
+    RETRIES.fetch_add(1, std::sync::atomic::Ordering::SeqCst);
+    run_cmd_close_after_limit(cmd, k, WATCHDOG * 2)
+}
+
+fn run_cmd_close_after_limit(cmd: &mut Command, k: usize, limit: Duration) -> (RunOut, usize) {
     use std::os::fd::AsRawFd;
     let started = Instant::now();
     let (reader, writer) = std::io::pipe().expect("pipe");
@@ -157,7 +183,7 @@ pub fn run_cmd_close_after(cmd: &mut Command, k: usize) -> (RunOut, usize) {
             got = buf;
         }
         drop(reader_opt.take()); // the consumer goes away
-        let w = wait_child(child, started);
+        let w = wait_child(child, started, limit);
         (got, t2.join().unwrap(), w)
     });
     (RunOut { code, signal, stdout, stderr, timed_out, wall: started.elapsed() }, cap)
